@@ -486,18 +486,7 @@ func redactXml(obj interface{}, path string) (xmlValue []byte, err error) {
 		return
 	}
 
-	// SetValueForPath sets the last key of the path on its parent whether or not the parent has it: for
-	// an element that is not in the document it added one holding the marker.
-	var targets []interface{}
-	targets, err = mv.ValuesForPath(path)
-	if err == nil && len(targets) < 1 {
-		err = errors.New("No match")
-	}
-	if err != nil {
-		return
-	}
-
-	err = mv.SetValueForPath(REDACTED, path)
+	err = setXmlValue(mv, path, REDACTED)
 	if err != nil {
 		return
 	}
@@ -515,6 +504,30 @@ func redactXml(obj interface{}, path string) (xmlValue []byte, err error) {
 		xmlValue = []byte(base64.StdEncoding.EncodeToString(xmlValue))
 	}
 	return
+}
+
+// setXmlValue sets the element (or attribute) at a path of mxj's dot notation, which must be in the document.
+func setXmlValue(mv mxj.Map, path string, value interface{}) (err error) {
+	// mxj indexes its slices with whatever number the path holds: a negative index ("order.item[-1]")
+	// panics with "slice bounds out of range", in ValuesForPath and in SetValueForPath alike.
+	defer func() {
+		if r := recover(); r != nil {
+			err = fmt.Errorf("Invalid XML path %q: %v", path, r)
+		}
+	}()
+
+	// SetValueForPath sets the last key of the path on its parent whether or not the parent has it: for
+	// an element that is not in the document it added one holding the marker.
+	var targets []interface{}
+	targets, err = mv.ValuesForPath(path)
+	if err == nil && len(targets) < 1 {
+		err = errors.New("No match")
+	}
+	if err != nil {
+		return
+	}
+
+	return mv.SetValueForPath(value, path)
 }
 
 func redactRecursively(obj interface{}, paths []string) (newObj interface{}, err error) {
